@@ -231,3 +231,22 @@ func init() {
 		return fr.in.tc.Ite(a[0].(*Term), a[1].(*Term), a[2].(*Term))
 	})
 }
+
+func init() {
+	// verifStrSame: concrete true iff the two strings are syntactically identical (same terms)
+	regVerif("verifStrSame", func(fr *frame, a []value) value {
+		x, y := a[0].(Str), a[1].(Str)
+		if len(x.b) != len(y.b) {
+			return fr.in.tc.tFalse
+		}
+		for i := range x.b {
+			if x.b[i] != y.b[i] {
+				if x.b[i].isConst() && y.b[i].isConst() && x.b[i].cv() == y.b[i].cv() {
+					continue
+				}
+				return fr.in.tc.tFalse
+			}
+		}
+		return fr.in.tc.tTrue
+	})
+}
